@@ -26,6 +26,17 @@ RULE = ("uniformity: N particles on a stratified grid over [0,H], 1..3 steps wit
         "(origin, status before the step) group of >= 2000 interior suspended particles the sample variance of the random "
         "displacement against 2*K*dt by the exact chi-square bound (same Bonferroni budget); sedimentation IBM uniformity "
         "for stratified clouds of status 1 and 2; sand eel larvae released as such / hatched by the module. "
+        "Sub-step lengths (every run, every class): chemicals with vertdiff_dt NOT a divisor of dt (0.08..0.97 dt, first "
+        "experiment from a fixed list of fractions) / LARGER than dt (1.02..20 dt) / a divisor (dt/2..dt/10) / equal / "
+        "absent, float or integer dt 60..3600 and vertdiff_dt; diffusivity as a forcing variable (any name) constant / "
+        "above the cap vertdiff_max / layer-wise constant (1000 m layers, factors 0.25..4) with coarse sampling vertdiff_dz "
+        "and/or cap, or a number (diffuse_const); vertical advection absent / off / on with constant w; lifespan; stub or "
+        "real LADiM State; 1..3 updates, the last observed; per layer group of N particles (scattered +-50 m round the "
+        "layer centre, reach of the bounded increments < half a layer) sample variance of the displacement minus dt*w "
+        "against 2*K*dt (K = coefficient in force in the layer) by an exact Bernstein bound for sums of <= m+1 uniform "
+        "increments (level 1e-9/4000 per test); LaBolle constant-K uniformity with such sub-steps, coarse sampling and "
+        "cap >= K (binomial bound); sedimentation ladis on intervals [t0, t1] with t0 = 0 / != 0, lengths 0.5..600 s, "
+        "constant or layer-wise constant K, constant velocity, flat or column array: chi-square bound on 2*K*(t1-t0). "
         "Non-trivial: every statistical experiment; distinct by (module, parameters).")
 ASSUMPTIONS = ["np.random.rand / randn / normal are uniform / standard normal (numpy legacy generator, trusted)",
                "measure-theoretic step 'piecewise isometry with constant preimage count => uniform law invariant' is cited, not formalised"]
@@ -570,6 +581,273 @@ def flag_histories(ctx):
     sandeel_history(ctx)
 
 
+# =====================================================================================================================
+# Sub-step lengths of the chemicals LaBolle scheme (`vertdiff_dt`) and of the sedimentation solver (`t1 - t0`)
+#
+# The property's variance clause speaks about ONE step of length dt: whatever the sub-step length the configuration
+# asks for - a divisor of dt, NOT a divisor of dt (the last sub-step is shorter), larger than dt (one shortened
+# sub-step), equal to dt, absent - the displacement added by one `update_ibm` to a particle that stays inside a region
+# of constant diffusivity K, away from the boundaries, has variance 2*K*dt.  Every run makes experiments of every class.
+# =====================================================================================================================
+
+def bernstein_radius(n, var, M, a):
+    """smallest t with 2*exp(-n*t^2 / (2*var + 2*M*t/3)) <= a.  Bernstein's inequality (non-asymptotic): for n
+    independent variables with mean mu, variance <= var and |X - mu| <= M, P(|mean - mu| > t) is at most that."""
+    L = math.log(2 / a)
+    b = 2 * M * L / 3
+    return (b + math.sqrt(b * b + 8 * n * L * var)) / (2 * n)
+
+
+def uniform_sum_variance_ok(ctx, label, disp, expected, m, site, params):
+    """EXACT (non-asymptotic) bound for displacements that are a sum of at most `m` independent centred uniform
+    increments whose variances add up to `expected` (what the scheme documents: one uniform increment of variance
+    2*K*ddt per sub-step, the ddt adding up to dt; for constant K the predictor is immaterial).
+
+    Normalised d = disp/sqrt(expected) = sum c_i*U_i, U_i uniform on [-1,1], sum c_i^2 = 3, so |d| <= sum c_i <=
+    sqrt(3m) (Cauchy-Schwarz); X = d^2 has mean 1, lies in [0, 3m] (|X - 1| <= 3m - 1) and has variance kurt - 1 with
+    kurt = 3 - 1.2*sum (c_i^2/3)^2 <= 3 - 1.2/m.  With A = mean(X), B = mean(d): sample variance / expected =
+    n/(n-1) * (A - B^2).  Bernstein: |A - 1| <= t and |B| <= u each fail with probability <= a/2, a = ALPHA_TOTAL /
+    MAX_TESTS (the Bonferroni share of one test of the run), hence the acceptance interval below has a false-alarm
+    probability <= a.  Slack 1e-9: floating-point rounding of Z (ulp(5000 m) = 9e-13 m per operation, a few operations
+    per sub-step) relative to displacements of standard deviation >= 0.1 m changes the ratio by < 1e-10."""
+    n = len(disp)
+    a = ALPHA_TOTAL / MAX_TESTS
+    t = bernstein_radius(n, 2.0 - 1.2 / m, 3.0 * m - 1.0, a / 2)
+    u = bernstein_radius(n, 1.0, math.sqrt(3.0 * m), a / 2)
+    var = float(np.var(disp, ddof=1))
+    ratio = var / expected
+    lo = n / (n - 1.0) * (1 - t - u * u) - 1e-9
+    hi = n / (n - 1.0) * (1 + t) + 1e-9
+    ok = lo <= ratio <= hi
+    ctx.oracle(ok, "C20.%s.variance" % label, site,
+               "group %s: sample variance %.6g of the displacement added by one step to %d interior particles vs 2*K*dt = %.6g "
+               "(ratio %.4f, exact Bernstein acceptance interval [%.4f, %.4f] at level %.1e for <= %d uniform increments)"
+               % (params.get("group"), var, n, expected, ratio, lo, hi, a, m),
+               dict(params, variance=var, expected=expected, n=n))
+    return ok
+
+
+SURE_FRACTIONS = [0.3, 0.4, 0.45, 0.7, 0.6, 0.8, 0.35]     # vertdiff_dt / dt, none the inverse of an integer
+SURE_MULTIPLES = [1.5, 2.0, 6.0, 10.0]
+
+
+def pick_substep(ctx, cls, rep, dt):
+    """(vertdiff_dt or None, number of sub-steps of one step of length dt) for a class of sub-step lengths"""
+    rng = ctx.rng
+    if cls == "default":
+        return None, 1
+    if cls == "equal":
+        return dt, 1
+    if cls == "dividing":
+        k = rng.choice([2, 3, 4, 5, 8, 10])
+        v = dt / k
+        if isinstance(dt, int) and dt % k == 0 and rng.random() < 0.5:
+            v = dt // k
+        return v, k
+    if cls == "larger":
+        f = SURE_MULTIPLES[rng.randrange(len(SURE_MULTIPLES))] if rep == 0 else round(rng.uniform(1.02, 20.0), 2)
+        v = dt * f
+        if isinstance(dt, int) and rng.random() < 0.5:
+            v = int(math.ceil(v))
+        return v, 1
+    # not a divisor of dt, smaller than dt
+    while True:
+        r = SURE_FRACTIONS[rng.randrange(len(SURE_FRACTIONS))] if rep == 0 else round(rng.uniform(0.08, 0.97), 3)
+        v = dt * r
+        if isinstance(dt, int) and rng.random() < 0.5:
+            v = max(1, int(v))
+        q = dt / v
+        if abs(q - round(q)) > 1e-3:
+            return v, int(math.ceil(q))
+
+
+def substep_variance_experiment(ctx, cls, rep, N):
+    rng = ctx.rng
+    site = "ladim_plugins/chemicals/ibm.py"
+    dt = rng.choice([60.0, 100.0, 600.0, 3600.0, 100, 600])
+    vdt, m = pick_substep(ctx, cls, rep, dt)
+    K = rng.choice([1e-4, 1e-3, 1e-2])
+    kind = rng.choice(["constant", "constant", "capped", "layered", "layered_coarse", "layered_capped", "scalar"])
+    H, thick = 5000.0, 1000.0
+    name = rng.choice(["AKs", "vertdiff", "Kz"])
+    conf = dict(land_collision="freeze", vertical_mixing=name)
+    if vdt is not None:
+        conf["vertdiff_dt"] = vdt
+    factors = [1.0, 4.0, 0.25, 2.0, 0.5]
+    cap = None
+    dz = 0.0
+    if kind == "scalar":
+        # a number: `diffuse_const`, which takes one increment per step whatever vertdiff_dt says
+        conf["vertical_mixing"] = K
+        m = 1
+        layersK = [K] * 5
+    elif kind == "constant":
+        layersK = [K] * 5
+    elif kind == "capped":
+        # the forcing's coefficient is larger than the cap everywhere: the coefficient in force is the cap
+        cap = K
+        layersK = [K * rng.choice([3.0, 10.0])] * 5
+        if rng.random() < 0.5:
+            dz = rng.choice([1.0, 10.0])
+    else:
+        rng.shuffle(factors)
+        layersK = [K * f for f in factors]
+        if kind == "layered_coarse":
+            dz = rng.choice([0.5, 1.0, 10.0])
+        if kind == "layered_capped":
+            cap = K * rng.choice([0.5, 1.0, 3.0])
+            if rng.random() < 0.5:
+                dz = rng.choice([1.0, 10.0])
+    if cap is not None:
+        conf["vertdiff_max"] = cap
+    if dz:
+        conf["vertdiff_dz"] = dz
+    Keff = [k if cap is None else min(k, cap) for k in layersK]          # the coefficient in force in each layer
+    adv = rng.choice([None, False, True])
+    w = rng.choice([0.0, 1e-4, -1e-4]) if adv in (None, True) else rng.choice([0.0, 1e-4])
+    if adv is not None:
+        conf["vertical_advection"] = adv
+    weff = w if adv in (None, True) else 0.0                             # module default: vertical advection on
+    if rng.random() < 0.3:
+        conf["lifespan"] = 1e12
+    steps = rng.choice([1, 1, 2, 3])
+    # groups of N particles around the centres of distinct layers (one group if the diffusivity is the same everywhere)
+    glayers = [2] if kind in ("scalar", "constant", "capped") else sorted(rng.sample(range(5), 2))
+    # particles stay inside their layer during all `steps` updates: total reach of the bounded increments, sinking and
+    # the initial scatter (50 m), plus the coarse-sampling distance, is less than half a layer
+    reach = steps * (max(math.sqrt(3.0 * (m + 1) * 2 * Keff[l] * dt) for l in glayers) + abs(weff) * dt) + 50.0 + 2 * dz
+    assert reach < thick / 2, (reach, kind, dt, vdt, K)
+    rs = np.random.RandomState(ctx.sub_seed())
+    grp = np.repeat(np.arange(len(glayers)), N)
+    z0 = np.concatenate([thick * l + thick / 2 + rs.uniform(-50.0, 50.0, N) for l in glayers])
+    n = len(z0)
+    layersK_arr = np.array(layersK)
+
+    def vertdiff(x, y, z, nm, _K=layersK_arr, _name=name):
+        assert nm == _name
+        return _K[np.clip((np.asarray(z, float) // thick).astype(int), 0, 4)]
+
+    forcing = Obj(forcing=Obj(wvel=lambda x, y, z, *a, **k: np.zeros_like(np.asarray(z, float)) + w, vertdiff=vertdiff))
+    grid = Obj(sample_depth=lambda x, y: np.asarray(x, float) * 0 + H)
+    carrier = rng.choice(["stub", "real"])
+    if carrier == "real":
+        st = real_state(dt=dt, X=np.full(n, 5.0), Y=np.full(n, 5.0), Z=z0.copy(), age=np.zeros(n))
+    else:
+        st = NumState(X=np.full(n, 5.0), Y=np.full(n, 5.0), Z=z0.copy(), pid=np.arange(n), alive=np.ones(n, bool), age=np.zeros(n))
+    import logging
+    logging.disable(logging.WARNING)                     # the module's stability warning concerns depth-varying profiles
+    try:
+        ibm = ibmrun.mod("chemicals").IBM(dict(dt=dt, ibm=conf))
+    finally:
+        logging.disable(logging.NOTSET)
+    with RngRecorder(ctx.sub_seed()) as rec:
+        for _ in range(steps):
+            before = np.array(st["Z"], float)
+            ibm.update_ibm(grid, st, forcing)
+            del rec.log[:]
+    after = np.array(st["Z"], float)
+    disp = after - before - weff * dt                    # the sinking/rising dt*w is deterministic
+    params = dict(module="chemicals", dt=dt, vertdiff_dt=vdt, substep_class=cls, profile=kind, ibm=dict(conf), N=N, steps=steps,
+                  layer_K=layersK, wvel=w, state=carrier, depth=H, layer_thickness=thick)
+    ctx.case(key=("substep", cls, dt, vdt, K, kind, repr(sorted(conf.items(), key=str)), steps, carrier), nontrivial=True,
+             sample=params if rep == 0 and cls in ("nondividing", "larger") else None)
+    ctx.branch("substep.variance.%s" % cls)
+    ctx.branch("substep.profile.%s" % kind)
+    ctx.branch("substep.state_%s" % carrier)
+    ctx.branch("substep.advection_%s" % adv)
+    for g, l in enumerate(glayers):
+        sel = grp == g
+        label = "chemicals_const_substeps" if kind == "scalar" else "chemicals_labolle_substeps"
+        uniform_sum_variance_ok(ctx, label, disp[sel], 2 * Keff[l] * dt, m + 1, site,
+                                dict(params, group="layer %d (%g..%g m), K in force %g" % (l, l * thick, (l + 1) * thick, Keff[l]),
+                                     K=Keff[l]))
+
+
+def substep_uniformity_experiment(ctx, cls, rep):
+    """constant diffusivity given as a forcing variable (LaBolle scheme) with sub-steps, two reflecting boundaries:
+    every sub-step is a reflected shift of amplitude < H, so a well-mixed cloud stays well mixed EXACTLY (binomial
+    bound).  Amplitude of the longest sub-step = frac*H."""
+    rng = ctx.rng
+    N = ctx.n(40000, 400000)
+    dt = rng.choice([60.0, 100.0, 600.0, 100])
+    vdt, m = pick_substep(ctx, cls, rep, dt)
+    H = rng.choice([10.0, 40.0, 2.5]); frac = rng.choice([0.15, 0.4, 0.8]); steps = rng.choice([1, 2, 3])
+    longest = min(float(vdt), float(dt))
+    K = (frac * H) ** 2 / (6 * longest)
+    conf = dict(land_collision="freeze", vertical_mixing="AKs", vertical_advection=False, vertdiff_dt=vdt)
+    if rng.random() < 0.5:
+        conf["vertdiff_dz"] = rng.choice([0.1, 1.0])
+    if rng.random() < 0.5:
+        conf["vertdiff_max"] = K * rng.choice([1.0, 2.0])            # not below K: the coefficient in force is K
+    import logging
+    logging.disable(logging.WARNING)
+    try:
+        ibm = ibmrun.mod("chemicals").IBM(dict(dt=dt, ibm=conf))
+    finally:
+        logging.disable(logging.NOTSET)
+    forcing = Obj(forcing=Obj(wvel=lambda x, y, z: x * 0, vertdiff=lambda x, y, z, nm: np.asarray(z, float) * 0 + K))
+    grid = Obj(sample_depth=lambda x, y: np.asarray(x, float) * 0 + H)
+    st = NumState(X=np.full(N, 5.0), Y=np.full(N, 5.0), Z=strat(N, 0, H), pid=np.arange(N), alive=np.ones(N, bool), age=np.zeros(N))
+    with RngRecorder(ctx.sub_seed()) as rec:
+        for _ in range(steps):
+            ibm.update_ibm(grid, st, forcing)
+            del rec.log[:]
+    params = dict(module="chemicals labolle", H=H, K=K, dt=dt, vertdiff_dt=vdt, substep_class=cls, ibm=dict(conf), steps=steps, N=N,
+                  amplitude_longest_substep=frac * H)
+    ctx.case(key=("substep_uni", cls, H, K, dt, vdt, steps, repr(sorted(conf.items()))), nontrivial=True)
+    ctx.branch("substep.uniformity.%s" % cls)
+    uniform_test(ctx, "chemicals_labolle_substeps", np.array(st.Z, float), H, "ladim_plugins/chemicals/ibm.py", params)
+
+
+def ladis_step_lengths(ctx):
+    """sedimentation solver `ladis(x0, t0, t1, v, K)`: the step is the interval [t0, t1], of any length and starting at
+    any time; constant (or layer-wise constant) K, constant velocity: displacement - v*(t1-t0) is normal with variance
+    2*K*(t1-t0) exactly (chi-square bound).  Particles sit >= 400 m = 57 standard deviations inside their layer (the
+    chance that a normal draw carries one of 1e5 particles out of it is < 1e-300)."""
+    M = ibmrun.mod("sedimentation")
+    N = ctx.n(100000, 300000)
+    for rep in range(ctx.n(3, 10)):
+        rng = ctx.rng
+        t0 = rng.choice([0.0, 0.0, 600.0, 86400.0, 1.0e6, 7.5])
+        length = rng.choice([1.0, 45.0, 60.0, 100.0, 600.0, 0.5])
+        t1 = t0 + length
+        K = rng.choice([1e-4, 1e-3, 1e-2])
+        v0 = rng.choice([0.0, 1e-3, -1e-3])
+        factors = [1.0, 4.0, 0.25, 2.0, 0.5]
+        layered = rng.random() < 0.5
+        if layered:
+            rng.shuffle(factors)
+        else:
+            factors = [1.0] * 5
+        Kl = np.array([K * f for f in factors])
+        l = rng.randrange(5)
+        rs = np.random.RandomState(ctx.sub_seed())
+        x0 = 1000.0 * l + 500.0 + rs.uniform(-50.0, 50.0, N)
+        shape = rng.choice(["flat", "column"])
+        xin = x0.copy() if shape == "flat" else x0.copy().reshape(N, 1)
+        with RngRecorder(ctx.sub_seed()) as rec:
+            out = M.ladis(xin, t0, t1, lambda x, t: 0 * x + v0, lambda x, t: Kl[np.clip((x // 1000.0).astype(int), 0, 4)])
+            del rec.log[:]
+        out = np.asarray(out, float).reshape(-1)
+        step = t1 - t0
+        params = dict(module="sedimentation ladis", t0=t0, t1=t1, K=float(Kl[l]), layer_K=Kl.tolist(), v=v0, N=N, shape=shape,
+                      group="layer %d" % l)
+        ctx.case(key=("ladis_len", t0, t1, K, v0, tuple(factors), l, shape), nontrivial=True, sample=params if rep == 0 else None)
+        ctx.branch("substep.ladis.t0_%s" % ("zero" if t0 == 0 else "nonzero"))
+        chi2_variance_ok(ctx, "sedimentation_ladis", out - x0 - v0 * step, 2 * float(Kl[l]) * step, "ladim_plugins/sedimentation/ibm.py", params)
+
+
+def substeps(ctx):
+    N = ctx.n(100000, 300000)
+    for cls in ("nondividing", "larger", "dividing", "equal", "default"):
+        for rep in range(ctx.n(4, 12) if cls in ("nondividing", "larger") else ctx.n(2, 5)):
+            substep_variance_experiment(ctx, cls, rep, N)
+    for cls in ("nondividing", "larger", "dividing"):
+        for rep in range(ctx.n(1, 4)):
+            substep_uniformity_experiment(ctx, cls, rep)
+    ladis_step_lengths(ctx)
+
+
 def ladis_corr(ctx, drv):
     M = ibmrun.mod("sedimentation")
     pend = []
@@ -615,6 +893,8 @@ def run(ctx):
     # status flags / multi-step histories through IBM.update_ibm (last, so that the inputs of the experiments above are
     # the same as before these were added)
     flag_histories(ctx)
+    # sub-step lengths (vertdiff_dt dividing / not dividing / larger than dt; ladis intervals): after everything else, same reason
+    substeps(ctx)
 
 
 def replay(payload):
